@@ -103,6 +103,10 @@ pub struct RunResult {
 
 static RUN_COUNTER: AtomicU64 = AtomicU64::new(0);
 
+/// Index of the operation the (single) running sequential simulation of this process is executing; read by the
+/// real-time watchdog of `check::run_in_thread` when a simulation blocks for real.
+pub static CUR_OP_GLOBAL: AtomicU64 = AtomicU64::new(0);
+
 pub fn scratch_dir() -> PathBuf {
     let n = RUN_COUNTER.fetch_add(1, Ordering::SeqCst);
     let d = PathBuf::from(format!("/dev/shm/teos-sim-{}-{}", std::process::id(), n));
@@ -1335,10 +1339,13 @@ impl<'a> Run<'a> {
                 tu.insert(*u);
             }
             Op::RegisterBadId { kind } => {
-                let id = match kind % 3 {
+                let id = match kind % 5 {
                     0 => vec![2u8; 32],
                     1 => vec![5u8; 33],
-                    _ => vec![],
+                    2 => vec![],
+                    // right size, right prefix, x coordinate not on the curve (>= the field prime)
+                    3 => std::iter::once(2u8).chain(std::iter::repeat(0xffu8).take(32)).collect(),
+                    _ => std::iter::once(3u8).chain(std::iter::repeat(0xffu8).take(32)).collect(),
                 };
                 let before = self.db(ctx).digest();
                 let r = tower::api_register(&ctx.api, id);
@@ -1560,6 +1567,7 @@ pub fn run_history(hist: &History) -> RunResult {
                 }
                 while next_op < hist.ops.len() {
                     run.cur_op = next_op;
+                    CUR_OP_GLOBAL.store(next_op as u64, Ordering::SeqCst);
                     let op = hist.ops[next_op].clone();
                     run.op_ev0 = run.log.len();
                     run.in_flight = Some(op.clone());
